@@ -449,21 +449,18 @@ def gen_op(rng, S, step, stream):
           "s1": rng.random() < 0.5, "s2": rng.random() < 0.5}
     if rng.random() < 0.3:      # address the two files differently within one call
         op["a1"], op["a2"] = rng.choice(["abs", "rel", "dot"]), rng.choice(["abs", "rel", "dot"])
-        if sf == df:
-            # _copy decides "same file" by comparing the two path STRINGS: one file under two spellings is handled as
-            # two files (reported to the lead, input in the report); until that is decided one spelling per call
-            op["a2"] = op["a1"]
+        # D39 (fixed): one file under two spellings within one call used to be handled as two files; regression
+        # input: the spellings of source and destination are chosen independently also when they are the same file
     if rng.random() < 0.12:
         op["via"] = "cli"
     return op
 
 
 DECOY_STAMP = 17
-# A cross-file `ln -s` given a RELATIVE source path stores that path as written; HDF5 resolves it relative to the
-# directory of the file holding the link first, the working directory only as a fallback.  A decoy sitting exactly
-# where that first resolution lands makes the link read the decoy on the UNCHANGED tree (reported to the lead as a
-# defect of /repo, input in the report); until that is decided such a decoy is not placed.
-DECOY_WHERE_CWD_RELATIVE_LINK_LANDS = False
+# D38 (fixed): a cross-file `ln -s` given a RELATIVE source path used to store that path as written, while HDF5
+# resolves it relative to the directory of the file holding the link first; a decoy sitting exactly where that first
+# resolution landed made the link read the decoy.  Regression input: such decoys ARE placed.
+DECOY_WHERE_CWD_RELATIVE_LINK_LANDS = True
 
 
 def make_layout(d, spec):
@@ -724,8 +721,12 @@ def layout_corpus():
          [c(A, "/c2", 3), c(B, "/c10", 4), o("lns", A, "/c2", B, "/e"), o("cp", A, "/c2", B, "/c2"), o("mv", B, "/c10", A, "/c10"),
           c(A, "/c2/y", 5), o("lns", A, "/c2/y", B, "/y", via="cli"), o("cp", B, "/c2", A, "/y", via="cli")]),
         ("same-file links and a cross-file hard link refused, mixed addressing",
-         [c(A, "/", 6), o("ln", A, "/", A, "/c10", a1="rel", a2="rel"), o("lns", A, "/c10", A, "/y", a1="dot", a2="dot"),
-          o("ln", A, "/", B, "/c2", a1="abs", a2="dot"), o("mv", A, "/c10", A, "/c2", via="cli", a1="rel", a2="rel")]),
+         [c(A, "/", 6), o("ln", A, "/", A, "/c10", a1="rel", a2="abs"), o("lns", A, "/c10", A, "/y", a1="dot", a2="rel"),
+          o("ln", A, "/", B, "/c2", a1="abs", a2="dot"), o("mv", A, "/c10", A, "/c2", via="cli", a1="rel", a2="dot"),
+          o("cp", A, "/c2", A, "/c10", a1="abs", a2="dot"), o("cp", A, "/", A, "/c2", ow=True, a1="rel", a2="abs")]),
+        ("D38 regression: relative source of an external link with a decoy where the cwd-relative name would land",
+         [c(A, "/c2", 1), o("lns", A, "/c2", B, "/e", a1="rel", a2="rel"), o("lns", A, "/c2", B, "/e2", a1="dot", a2="abs"),
+          o("lns", A, "/c2", B, "/e3", a1="abs", a2="rel"), o("cp", B, "/e", B, "/copy_of_e", a1="rel", a2="dot")]),
     ]
 
 
